@@ -77,7 +77,7 @@ def try_builtin(it, callee, args):
 
     # ---- f64 intrinsics
     m = re.match(r"^(?:std|core)::f64::<impl f64>::(\w+)$", c)
-    if m:
+    if m and m.group(1) not in ("total_cmp", "partial_cmp"):
         name = m.group(1)
         a = [deref(x) for x in args]
         used("f64::" + name)
@@ -210,6 +210,25 @@ def try_builtin(it, callee, args):
     m = re.match(r"^(?:std::ops::)?RangeInclusive::<usize>::new$", c)
     if m:
         return Struct("RangeInclusive", [args[0], args[1], False])
+    # ---- arrays by value
+    m = re.match(r"^(?:core::|std::)?array::<impl \[(.*); (\d+|N)\]>::(map|iter|iter_mut|as_slice|len)(?:::<.*>)?$", c, re.S)
+    if m:
+        name = m.group(3)
+        used("[T; N]::" + name)
+        if name == "map":
+            arr = args[0]
+            from interp import Cell as _Cell
+            cl = _Cell(args[1])
+            return Array([it.call_closure(cl, [x]) for x in arr.fields])
+        sl = as_slice(args[0])
+        if name == "iter":
+            return SliceIter(sl)
+        if name == "iter_mut":
+            return SliceIter(sl, True)
+        if name == "as_slice":
+            return sl
+        if name == "len":
+            return len(sl)
     # ---- bool helpers
     m = re.match(r"^core::bool::<impl bool>::(then_some|then)(?:::<.*>)?$", c)
     if m:
@@ -230,6 +249,21 @@ def try_builtin(it, callee, args):
         if it.decide(dom.cmp("Gt", a, b)):
             return Opt(EnumVal("Ordering", "Greater", 1), True)
         return Opt(None, False)
+    if re.match(r"^(?:core|std)::f64::<impl f64>::total_cmp$", c):
+        # total order of IEEE 754; modelled through <, > and "otherwise Equal", i.e. exact except for the relative order of
+        # -0.0/+0.0 and of NaNs (callers in this crate only sort values already filtered to be normal)
+        a, b = deref(args[0]), deref(args[1])
+        used("f64::total_cmp (via <, >)")
+        if it.decide(dom.cmp("Lt", a, b)):
+            return EnumVal("Ordering", "Less", -1)
+        if it.decide(dom.cmp("Gt", a, b)):
+            return EnumVal("Ordering", "Greater", 1)
+        return EnumVal("Ordering", "Equal", 0)
+    m = re.match(r"^<(.*) as (?:std::borrow::|core::borrow::)?(Borrow|AsRef)<(.*)>>::(borrow|as_ref)$", c, re.S)
+    if m and len(args) == 1 and isinstance(args[0], Ref):
+        used("Borrow::borrow")
+        inner = read_path(args[0].cell, args[0].path)
+        return inner if isinstance(inner, (Ref, SliceRef)) else args[0]
     m = re.match(r"^<f64 as PartialOrd(?:<f64>)?>::(lt|le|gt|ge)$", c)
     if m:
         a, b = deref(args[0]), deref(args[1])
